@@ -1570,9 +1570,12 @@ class Scene:
         self._airplanes[aircraft].set_state(**state, v_wind=v_wind)
         aircraft_orient = self._airplanes[aircraft].q
 
-        # If the position has changed, then we need to update the geometry
-        if not np.allclose(old_position, aircraft_position) or not np.allclose(old_orient, aircraft_orient):
+        # If the position or orientation has changed at all, then we need to update the geometry
+        if not np.array_equal(old_position, self._airplanes[aircraft].p_bar) or not np.array_equal(old_orient, aircraft_orient):
             self._perform_geometry_and_atmos_calcs()
+
+        # Whatever changed, results stored for the previous state are no longer current
+        self._solved = False
 
 
     def set_aircraft_control_state(self, control_state={}, aircraft=None):
